@@ -159,7 +159,15 @@ class SMI(Machine):
         if sink.fail_at is not None:
             if self.branch(sink.fail_at == sink.n):
                 self.events.append(('sink_fail', sink.n))
-                return ERR(Opaque('io::Error', 'injected at write #%d' % sink.n))
+                k = sink.n
+                # failure mode: persistent (this and every later call fails: the index does not advance) or one-shot (only call k
+                # fails; the sink accepts later calls again, so an ignored error ends in Ok). Symbolic when the sink carries a
+                # selector.
+                once = getattr(sink, 'once', None)
+                if once is not None and self.branch(once):
+                    self.events.append(('sink_mode', 'one-shot'))
+                    sink.n += 1
+                return ERR(Opaque('io::Error', 'injected at write #%d' % k))
         sink.n += 1
         if isinstance(text, list):
             sink.rope.extend(text)
